@@ -87,11 +87,11 @@ def callee_ctx(tu, ev):
     if c is None or c < 0 or c not in tu.fns:
         return "none"
     f = tu.fns[c]
-    if f.q.startswith(NS):
+    if f.is_lib:
         return "lib"
     if f.is_std:
         return "std"
-    return "user"
+    return "user"   # includes customisation points the user defines inside namespace trompeloeil
 
 
 def severity_of(tree, env):
